@@ -699,22 +699,77 @@ func checkReverseIdiom(c *Ctx, rule string) {
 		be, ok := ast.Unparen(e).(*ast.BinaryExpr)
 		return ok && be.Op == token.SUB && isN(be.X) && constIs(be.Y, "1")
 	}
-	isMirror := func(e ast.Expr, i types.Object) bool { // n-1-i  or  n-i-1
-		be, ok := ast.Unparen(e).(*ast.BinaryExpr)
-		if !ok || be.Op != token.SUB {
-			return false
-		}
-		isI := func(x ast.Expr) bool {
-			id, ok := ast.Unparen(x).(*ast.Ident)
-			return ok && info.ObjectOf(id) == i
-		}
-		if isNMinus1(be.X) && isI(be.Y) {
+	// lin evaluates an index expression to cn*n + ci*i + k, resolving locals that are assigned once
+	singleDef := func(obj types.Object) ast.Expr {
+		var def ast.Expr
+		cnt := 0
+		ast.Inspect(fi.Decl.Body, func(m ast.Node) bool {
+			switch x := m.(type) {
+			case *ast.AssignStmt:
+				for j, l := range x.Lhs {
+					if id, ok := l.(*ast.Ident); ok && info.ObjectOf(id) == obj {
+						cnt++
+						if len(x.Rhs) == len(x.Lhs) && (x.Tok == token.DEFINE || x.Tok == token.ASSIGN) {
+							def = x.Rhs[j]
+						} else {
+							cnt += 10
+						}
+					}
+				}
+			case *ast.IncDecStmt:
+				if id, ok := x.X.(*ast.Ident); ok && info.ObjectOf(id) == obj {
+					cnt += 10
+				}
+			}
 			return true
+		})
+		if cnt == 1 {
+			return def
 		}
-		if inner, ok := ast.Unparen(be.X).(*ast.BinaryExpr); ok && inner.Op == token.SUB && isN(inner.X) && isI(inner.Y) && constIs(be.Y, "1") {
-			return true
+		return nil
+	}
+	var lin func(e ast.Expr, i types.Object, depth int) (cn, ci, k int, ok bool)
+	lin = func(e ast.Expr, i types.Object, depth int) (int, int, int, bool) {
+		e = ast.Unparen(e)
+		if depth > 4 {
+			return 0, 0, 0, false
 		}
-		return false
+		if tv := info.Types[e]; tv.Value != nil {
+			if v, err := parseInt(tv.Value.String()); err == nil {
+				return 0, 0, v, true
+			}
+		}
+		if lenArg(info, e) != nil {
+			if _, isID := ast.Unparen(lenArg(info, e)).(*ast.Ident); isID {
+				return 1, 0, 0, true
+			}
+		}
+		switch x := e.(type) {
+		case *ast.Ident:
+			obj := info.ObjectOf(x)
+			if obj == i {
+				return 0, 1, 0, true
+			}
+			if def := singleDef(obj); def != nil {
+				return lin(def, i, depth+1)
+			}
+		case *ast.BinaryExpr:
+			an, ai, ak, ok1 := lin(x.X, i, depth+1)
+			bn, bi, bk, ok2 := lin(x.Y, i, depth+1)
+			if ok1 && ok2 {
+				switch x.Op {
+				case token.ADD:
+					return an + bn, ai + bi, ak + bk, true
+				case token.SUB:
+					return an - bn, ai - bi, ak - bk, true
+				}
+			}
+		}
+		return 0, 0, 0, false
+	}
+	isMirror := func(e ast.Expr, i types.Object) bool { // n-1-i in any spelling
+		cn, ci, k, ok := lin(e, i, 0)
+		return ok && cn == 1 && ci == -1 && k == -1
 	}
 	copied := false
 	for _, call := range callsIn(fi.Decl.Body, true) {
@@ -1065,8 +1120,8 @@ func checkFloatDigits(c *Ctx, rule string) {
 			}
 		})
 	}
-	if n < 2 {
-		c.Unresolved(rule, "renderings of *big.Float in the spec conversion packages (found fewer than 2)")
+	if n < 1 {
+		c.Unresolved(rule, "renderings of *big.Float in the spec conversion packages")
 	}
 }
 
